@@ -410,10 +410,21 @@ fn dur_dec_event(f: &DurField, v: u32) -> Value {
 }
 
 fn dur_enc_event(f: &DurField, ms: u64, ns: u32) -> Value {
+    dur_enc_event5(f, 0, ms, ns)
+}
+
+/// hi = the fifth 16-bit limb of the millisecond count (durations of 2^64 ms and more: far beyond every field, to be refused)
+fn dur_enc_event5(f: &DurField, hi: u16, ms: u64, ns: u32) -> Value {
     let mut rec = f.rec.clone();
-    let d = dur_abs(ms, ns);
+    let mut d = dur_abs(ms, ns);
+    let low = d["ms"].clone();
+    if hi > 0 {
+        let mut limbs = d["ms"].as_array().cloned().unwrap_or_default();
+        limbs.push(json!(hi));
+        d["ms"] = Value::Array(limbs);
+    }
     set_path(&mut rec, &f.path, d.clone());
-    let mut e = json!({"ev": "DurEnc", "kind": f.kind, "field": f.path.join("."), "w": f.w, "scale": f.scale, "ms": d["ms"], "ns": d["ns"]});
+    let mut e = json!({"ev": "DurEnc", "kind": f.kind, "field": f.path.join("."), "w": f.w, "scale": f.scale, "ms": low, "ns": d["ns"], "huge": hi > 0});
     match insim::Packet::from_abs(&json!({"kind": f.kind, "rec": rec})) {
         Err(x) => {
             e["res"] = json!(format!("build:{x}"));
@@ -627,6 +638,11 @@ pub fn cmd_values_trace(a: &HashMap<String, String>) -> i32 {
                 let mut units: Vec<u64> = vec![0, 1, 2, 99, 100, 255, 256, max - 1, max, max + 1, max + 2, 2 * max, (1 << 32) + 5, (1 << 40)];
                 for _ in 0..(if thorough { 2000 } else { 200 }) {
                     units.push(rng.gen_range(0..=max + 10));
+                }
+                // 2^64 ms and beyond: the low 64 bits alone would fit the field
+                for (hi, low) in [(1u16, 5000u64), (1, 0), (3, 65535 * f.scale), (15, 1)] {
+                    let _ = writeln!(w, "{}", dur_enc_event5(f, hi, low, 0));
+                    n += 1;
                 }
                 for u in units {
                     for r_ms in 0..f.scale {
